@@ -16,15 +16,46 @@ from _griffe.expressions import (
     ExprAttribute,
     ExprCall,
     ExprDict,
+    ExprName,
 )
 from _griffe.extensions.base import Extension
 from _griffe.logger import logger
 from _griffe.models import Attribute, Class, Decorator, Function, Module, Parameter, Parameters
 
 
+def _canonical_path(expr: Any) -> str | None:
+    # The names of the `dataclasses` module can reach a module through another module of the package
+    # (`from .base import *` where `base` imports them): an expression's canonical path stops at the first import,
+    # so we follow the following ones as far as the loaded modules tell.
+    path = getattr(expr, "canonical_path", None)
+    if not isinstance(expr, Expr) or path is None:
+        return path
+    scope = next(
+        (
+            name.parent
+            for name in expr.iterate(flat=True)
+            if isinstance(name, ExprName) and isinstance(name.parent, (Module, Class))
+        ),
+        None,
+    )
+    if scope is None:
+        return path
+    seen = set()
+    while path not in seen:
+        seen.add(path)
+        try:
+            target = scope.modules_collection[path]
+        except Exception:  # noqa: BLE001
+            break
+        if not target.is_alias:
+            break
+        path = target.target_path
+    return path
+
+
 def _dataclass_decorator(decorators: list[Decorator]) -> Expr | None:
     for decorator in decorators:
-        if isinstance(decorator.value, Expr) and decorator.value.canonical_path == "dataclasses.dataclass":
+        if isinstance(decorator.value, Expr) and _canonical_path(decorator.value) == "dataclasses.dataclass":
             return decorator.value
     return None
 
@@ -59,7 +90,7 @@ def _field_arguments(attribute: Attribute) -> dict[str, Any] | None:
         value = attribute.value
         if isinstance(value, ExprAttribute):
             value = value.last
-        if isinstance(value, ExprCall) and value.canonical_path == "dataclasses.field":
+        if isinstance(value, ExprCall) and _canonical_path(value) == "dataclasses.field":
             return _expr_args(value)
     return None
 
@@ -99,7 +130,7 @@ def _dataclass_parameters(class_: Class) -> list[tuple[str, Parameter | None]]:
                 continue
 
             # Start of keyword-only parameters.
-            if isinstance(member.annotation, Expr) and member.annotation.canonical_path == "dataclasses.KW_ONLY":
+            if isinstance(member.annotation, Expr) and _canonical_path(member.annotation) == "dataclasses.KW_ONLY":
                 kw_only = True
                 continue
 
@@ -126,11 +157,11 @@ def _dataclass_parameters(class_: Class) -> list[tuple[str, Parameter | None]]:
             # Determine parameter default (`MISSING` is the explicit spelling of "no default").
             missing = {"dataclasses.MISSING"}
             default_factory = field_args.get("default_factory")
-            if default_factory is not None and getattr(default_factory, "canonical_path", None) not in missing:
+            if default_factory is not None and _canonical_path(default_factory) not in missing:
                 default = ExprCall(function=default_factory, arguments=[])
             else:
                 default = field_args.get("default", None if is_field_call else member.value)
-                if getattr(default, "canonical_path", None) in missing:
+                if _canonical_path(default) in missing:
                     default = None
 
             # Add parameter to the list.
@@ -240,7 +271,7 @@ def _del_members_annotated_as_initvar(class_: Class) -> None:
     # Definitions annotated as InitVar are not class members.
     attributes = [member for member in class_.members.values() if isinstance(member, Attribute)]
     for attribute in attributes:
-        if isinstance(attribute.annotation, Expr) and attribute.annotation.canonical_path == "dataclasses.InitVar":
+        if isinstance(attribute.annotation, Expr) and _canonical_path(attribute.annotation) == "dataclasses.InitVar":
             class_.del_member(attribute.name)
 
 
